@@ -571,6 +571,18 @@ func runExt4Case(prop string, c core.Case, env *core.Env) core.Result {
 		}
 		if full {
 			res.Mark("ENOSPC reached")
+			// with the volume full, every other kind of call that needs a block or an inode is tried as well:
+			// refused or not, the image must stay consistent
+			for _, op := range []fsdrive.Op{
+				{Kind: "mkdir", Path: "full_dir"}, {Kind: "create", Path: "full_empty.bin"},
+				{Kind: "symlink", Path: "full_slow_link", Path2: strings.Repeat("t", 200)}, {Kind: "symlink", Path: "full_fast_link", Path2: "short"},
+				{Kind: "append", Path: "fill0001.bin", Len: bs + 1, DSeed: 77}, {Kind: "mkdir", Path: "full_dir/nested"},
+				{Kind: "write", Path: "full_dir/inside.bin", Len: 3 * bs, DSeed: 78},
+			} {
+				if !step(op) {
+					return res
+				}
+			}
 		}
 		for i, p := range drv.Model.Files() {
 			if i%2 == 0 {
